@@ -138,12 +138,14 @@ impl<'a> CompiledPredicate<'a> {
                 _ => true,
             },
             Expr::Literal(Literal::Boolean(b)) => *b,
-            Expr::Like { .. } | Expr::Between { .. } | Expr::InList { .. } | Expr::IsNull { .. } => {
-                match self.eval_value(expr, row) {
-                    Some(Value::Int(n)) => n != 0,
-                    _ => false,
-                }
-            }
+            Expr::Like { .. }
+            | Expr::Between { .. }
+            | Expr::InList { .. }
+            | Expr::IsNull { .. }
+            | Expr::UnaryOp { .. } => match self.eval_value(expr, row) {
+                Some(Value::Int(n)) => n != 0,
+                _ => false,
+            },
             _ => true,
         }
     }
@@ -358,6 +360,7 @@ impl<'a> CompiledPredicate<'a> {
             },
             UnaryOperator::Not => match val {
                 Value::Int(n) => Some(Value::Int(if *n == 0 { 1 } else { 0 })),
+                Value::Null => Some(Value::Null),
                 _ => None,
             },
             UnaryOperator::BitwiseNot => match val {
@@ -1115,18 +1118,35 @@ impl<'a> CompiledPredicate<'a> {
             | BinaryOperator::LtEq
             | BinaryOperator::Gt
             | BinaryOperator::GtEq => {
+                if matches!(left, Value::Null) || matches!(right, Value::Null) {
+                    return Some(Value::Null);
+                }
                 let result = self.compare_values(&Some(left.clone()), &Some(right.clone()), op);
                 Some(Value::Int(if result { 1 } else { 0 }))
             }
             BinaryOperator::And => {
                 let l = self.value_to_bool(left);
                 let r = self.value_to_bool(right);
-                Some(Value::Int(if l && r { 1 } else { 0 }))
+                let l_null = matches!(left, Value::Null);
+                let r_null = matches!(right, Value::Null);
+                if (!l && !l_null) || (!r && !r_null) {
+                    Some(Value::Int(0))
+                } else if l_null || r_null {
+                    Some(Value::Null)
+                } else {
+                    Some(Value::Int(1))
+                }
             }
             BinaryOperator::Or => {
                 let l = self.value_to_bool(left);
                 let r = self.value_to_bool(right);
-                Some(Value::Int(if l || r { 1 } else { 0 }))
+                if l || r {
+                    Some(Value::Int(1))
+                } else if matches!(left, Value::Null) || matches!(right, Value::Null) {
+                    Some(Value::Null)
+                } else {
+                    Some(Value::Int(0))
+                }
             }
         }
     }
@@ -1742,7 +1762,6 @@ impl<'a> CompiledPredicate<'a> {
         };
 
         let ordering = match (l, r) {
-            (Value::Null, Value::Null) => Some(Ordering::Equal),
             (Value::Null, _) | (_, Value::Null) => None,
             (Value::Int(a), Value::Int(b)) => Some(a.cmp(b)),
             (Value::Int(a), Value::Float(b)) => (*a as f64).partial_cmp(b),
